@@ -1,10 +1,11 @@
 /-
 C15 — `@counter-style` descriptors: theorems about `Model/CounterDescriptors.lean` (the validators of
 css/validation/descriptors.py and the rule-level checks of preprocess_stylesheet), and their link to
-`render_value`: what the validators accept is what steps 2–3 of `render_value` can work with — except
-`range: auto`, which they turn into a value `render_value` cannot read (finding `range-auto-crash`).
+`render_value`: what the validators accept is what steps 2–3 of `render_value` can work with — including
+`range: auto` since `fix:` 5be1d36 (it used to be stored as `('auto',)`, finding `range-auto-crash`).
 -/
 import WpModel.Model.CounterDescriptors
+import WpModel.Props.C15
 
 namespace Wp.C15
 open Wp.Counters Wp.CounterDescriptors
@@ -76,7 +77,6 @@ theorem range_validated_ordered (toks : List Tok) (lo hi : Bound) (h : rangePart
     lo ≠ .posInf ∧ hi ≠ .negInf ∧ ∀ x y, lo = .fin x → hi = .fin y → x ≤ y := by
   unfold rangePart at h
   split at h
-  · split at h <;> simp at h
   · rename_i a b
     cases hlo : loBound a with
     | none => simp [hlo] at h
@@ -99,15 +99,81 @@ theorem range_validated_ordered (toks : List Tok) (lo hi : Bound) (h : rangePart
         · simp at h
   · simp at h
 
-/-- The root of finding `range-auto-crash`: the validator's value for `range: auto` is a one-element
-tuple holding the string `'auto'` — not the `'auto'` that `render_value` tests for. -/
-theorem range_auto_is_tuple : range [.ident "auto"] = some (.entries [.autoKw]) := by decide
+/-- Regression for the repaired finding `range-auto-crash` (`fix:` 5be1d36): the validator's value for
+`range: auto` (any case) is the string `'auto'` that `render_value` tests for — no longer the tuple
+`('auto',)`. -/
+theorem range_auto_is_keyword :
+    range [.ident "auto"] = some .auto ∧ range [.ident "AUTO"] = some .auto := by decide
 
-/-- … and `render_value`'s range test raises on it, whatever the value. -/
-theorem range_auto_unreadable (d : Desc) (system : String) (v : Int)
-    (h : d.range = range [.ident "auto"]) : inRange d system v = .error .valueError := by
-  rw [range_auto_is_tuple] at h
-  simp [inRange, h, inRanges]
+/-- … and `auto` is not a member of a list of ranges any more. -/
+theorem range_auto_in_list_invalid :
+    range [.ident "auto", .comma, .int 1, .int 2] = none ∧ range [.int 1, .int 2, .comma, .ident "auto"] = none := by
+  decide
+
+private theorem rangePart_is_pair (toks : List Tok) (e : RangeEntry) (h : rangePart toks = some e) :
+    e ≠ .autoKw := by
+  unfold rangePart at h
+  split at h
+  · split at h
+    · split at h
+      · simp only [Option.some.injEq] at h; subst h; simp
+      · simp at h
+    · simp at h
+  · simp at h
+
+private theorem allParts_pairs : ∀ (parts : List (List Tok)) (l : List RangeEntry),
+    allParts rangePart parts = some l → RangeEntry.autoKw ∉ l := by
+  intro parts
+  induction parts with
+  | nil => intro l h; simp [allParts] at h; subst h; simp
+  | cons p rest ih =>
+    intro l h
+    unfold allParts at h
+    cases hp : rangePart p with
+    | none => simp [hp] at h
+    | some e =>
+      simp only [hp] at h
+      cases hr : allParts rangePart rest with
+      | none => simp [hr] at h
+      | some l' =>
+        simp only [hr, Option.map_some, Option.some.injEq] at h
+        subst h
+        intro hm
+        rcases List.mem_cons.mp hm with h1 | h1
+        · exact rangePart_is_pair p e hp h1.symm
+        · exact ih l' hr h1
+
+/-- **C15.validated_range_is_pairs** — every tuple the `range` validator returns holds `(min, max)` pairs
+only. -/
+theorem validated_range_is_pairs (toks : List Tok) (l : List RangeEntry) (h : range toks = some (.entries l)) :
+    RangeEntry.autoKw ∉ l := by
+  unfold range at h
+  split at h
+  · simp at h
+  · cases hl : rangeList toks with
+    | none => simp [hl] at h
+    | some l' =>
+      simp only [hl, Option.map_some, Option.some.injEq, RangeDesc.entries.injEq] at h
+      subst h
+      exact allParts_pairs _ _ hl
+
+/-- **C15.range_test_total** (full strength since `fix:` 5be1d36; it was `range_test_total_partial` with the
+hypothesis "no `'auto'` inside the tuple", refuted by the witness `range_auto_raises` for `range: auto`):
+on a style whose `range` is absent or came from the validator — whatever the tokens — step 2 of
+`render_value` never raises. -/
+theorem range_test_total (counter : Desc) (system : String) (v : Int) (toks : List Tok)
+    (h : counter.range = none ∨ counter.range = range toks) : ∃ b, inRange counter system v = .ok b := by
+  apply range_test_total_pairs
+  intro l hl
+  rcases h with h | h
+  · rw [h] at hl; simp at hl
+  · rw [h] at hl; exact validated_range_is_pairs toks l hl
+
+/-- `range: auto` means the automatic range of the system (css-counter-styles-3 §3.3). -/
+theorem range_auto_reads_as_auto (d : Desc) (system : String) (v : Int) (h : d.range = range [.ident "auto"]) :
+    inRange d system v = .ok ((autoRange system).1.leInt v && (autoRange system).2.geInt v) := by
+  rw [range_auto_is_keyword.1] at h
+  simp only [inRange, h]
 
 /-! ## `system` and the rule-level checks -/
 
@@ -202,10 +268,7 @@ theorem registered_style_step3_ok (d : Desc) (s : Sys) (toks : List Tok) (hs : d
       have hl : ¬ syms.length < 2 := by omega
       rw [hn]; left
       by_cases hv0 : v = 0
-      · subst hv0
-        cases syms with
-        | nil => simp at hlen
-        | cons x xs => simp [step3, hsym]
+      · simp [step3, hsym, hl, hv0]
       · simp [step3, hsym, hl, hv0]
     · obtain ⟨syms, hsym, hlen⟩ := symsOf 2 (accepted_two d s hs he (Or.inl hn) hacc) (by omega)
       have hl : ¬ syms.length < 2 := by omega
@@ -233,16 +296,68 @@ theorem registered_style_step3_ok (d : Desc) (s : Sys) (toks : List Tok) (hs : d
           · exact Or.inl ⟨_, rfl⟩
           · exact Or.inr ⟨_, rfl⟩
 
-/-- An `extends` rule is registered whatever it declares (so its own `symbols` may be too few or empty:
-findings `extends-own-symbols-loses-sign`, `extends-empty-symbols-index-error`). -/
+/-- An `extends` rule is registered whatever it declares (so its own `symbols` may be too few: step 3 then
+takes the decimal exit with the original value, `C15.decimal_fallback_value`). -/
 theorem extends_rule_always_registered (decls : List Decl) (s : Sys)
     (h : (decls.foldl applyDecl {}).system = some s) (he : s.ext = true) :
     buildRule decls = some (decls.foldl applyDecl {}) := by
   simp [buildRule, ruleAccepted, h, he]
 
-/-- `system:` with an empty value makes the validator raise instead of rejecting the declaration
-(reported for C07/C02). -/
+/-- `system` called directly on an empty value raises (`tokens[0]`) … -/
 theorem system_empty_raises : system [] = .error .indexError := rfl
+
+private theorem system_cons_ok (t0 : Tok) (rest : List Tok) : ∃ r, system (t0 :: rest) = .ok r := by
+  unfold system
+  split
+  · exact ⟨_, rfl⟩
+  · simp only
+    repeat' split
+    all_goals exact ⟨_, rfl⟩
+
+/-- … it is the only failure point of the validators … -/
+theorem validate_error_only_empty (name : String) (toks : List Tok) (e : DErr)
+    (h : validate name toks = some (.error e)) : toks = [] := by
+  cases toks with
+  | nil => rfl
+  | cons t0 rest =>
+    exfalso
+    unfold validate at h
+    split at h <;> try (simp at h; done)
+    obtain ⟨r, hr⟩ := system_cons_ok t0 rest
+    simp [hr, Except.map] at h
+
+/-- **C15.preprocess_descriptors_total** (since `fix:` d71ddd0, which rejects an empty value before the
+validator is called): collecting the declarations of a `@counter-style` rule never raises. -/
+theorem preprocess_descriptors_total : ∀ (decls : List (String × List Tok)) (acc : List Decl),
+    ∃ ds, preprocessDescriptors decls acc = .ok ds := by
+  intro decls
+  induction decls with
+  | nil => intro acc; exact ⟨acc, rfl⟩
+  | cons d rest ih =>
+    intro acc
+    obtain ⟨n, toks⟩ := d
+    unfold preprocessDescriptors
+    cases h1 : preprocessOne n toks with
+    | ok r => cases r with
+      | none => exact ih acc
+      | some x => exact ih _
+    | error e =>
+      exfalso
+      unfold preprocessOne at h1
+      split at h1
+      · simp at h1
+      · rename_i hne
+        cases hv : validate n toks with
+        | none => simp [hv] at h1
+        | some r =>
+          simp only [hv] at h1
+          subst h1
+          have := validate_error_only_empty n toks e hv
+          subst this
+          simp at hne
+
+/-- An empty value leaves the descriptor unset (`symbols: ;` no longer registers the empty tuple). -/
+theorem preprocess_empty_ignored (name : String) : preprocessOne name [] = .ok none := rfl
 
 /-- A `pad` value is a non-negative integer and a symbol, in either order. -/
 theorem pad_validated (toks : List Tok) (n : Nat) (s : Sym) (h : pad toks = some (n, s)) : toks.length = 2 := by
@@ -251,6 +366,155 @@ theorem pad_validated (toks : List Tok) (n : Nat) (s : Sym) (h : pad toks = some
   · assumption
   · simp at h
 
+/-! ## From the parsed rule to `render_value`: a registered rule renders without raising -/
+
+/-- A declaration that came out of a validator (on a non-empty value). -/
+def Validated (d : Decl) : Prop := ∃ name toks, validate name toks = some (.ok (some d))
+
+private theorem preprocessOne_validated (name : String) (toks : List Tok) (d : Decl)
+    (h : preprocessOne name toks = .ok (some d)) : Validated d := by
+  unfold preprocessOne at h
+  split at h
+  · simp at h
+  · cases hv : validate name toks with
+    | none => simp [hv] at h
+    | some r => simp only [hv] at h; subst h; exact ⟨name, toks, hv⟩
+
+/-- Everything `preprocess_descriptors` yields came out of a validator. -/
+theorem preprocess_validated : ∀ (decls : List (String × List Tok)) (acc ds : List Decl),
+    preprocessDescriptors decls acc = .ok ds → (∀ d ∈ acc, Validated d) → ∀ d ∈ ds, Validated d := by
+  intro decls
+  induction decls with
+  | nil => intro acc ds h hacc; simp [preprocessDescriptors] at h; subst h; exact hacc
+  | cons x rest ih =>
+    intro acc ds h hacc
+    obtain ⟨n, toks⟩ := x
+    unfold preprocessDescriptors at h
+    cases h1 : preprocessOne n toks with
+    | error e => simp [h1] at h
+    | ok r =>
+      cases r with
+      | none => simp only [h1] at h; exact ih acc ds h hacc
+      | some d =>
+        simp only [h1] at h
+        apply ih _ ds h
+        intro d' hd'
+        rcases List.mem_append.mp hd' with hm | hm
+        · exact hacc d' hm
+        · simp at hm; rw [hm]; exact preprocessOne_validated n toks d h1
+
+private theorem validated_range (r : RangeDesc) (h : Validated (.range r)) : ∃ toks, range toks = some r := by
+  obtain ⟨name, toks, hv⟩ := h
+  unfold validate at hv
+  split at hv
+  · cases hs : system toks with
+    | error e => simp [hs, Except.map] at hv
+    | ok o => cases o <;> simp [hs, Except.map] at hv
+  · cases h : negative toks <;> simp [h] at hv
+  · cases h : prefixSuffix toks <;> simp [h] at hv
+  · cases h : prefixSuffix toks <;> simp [h] at hv
+  · cases h : range toks with
+    | none => simp [h] at hv
+    | some r' => simp [h] at hv; subst hv; exact ⟨toks, h⟩
+  · cases h : pad toks <;> simp [h] at hv
+  · cases h : fallback toks <;> simp [h] at hv
+  · cases h : symbols toks <;> simp [h] at hv
+  · cases h : additiveSymbols toks <;> simp [h] at hv
+  · simp at hv
+
+private theorem validated_system (s : Sys) (h : Validated (.system s)) : ∃ toks, system toks = .ok (some s) := by
+  obtain ⟨name, toks, hv⟩ := h
+  unfold validate at hv
+  split at hv
+  · cases hs : system toks with
+    | error e => simp [hs, Except.map] at hv
+    | ok o =>
+      cases o with
+      | none => simp [hs, Except.map] at hv
+      | some s' => simp [hs, Except.map] at hv; subst hv; exact ⟨toks, hs⟩
+  · cases h : negative toks <;> simp [h] at hv
+  · cases h : prefixSuffix toks <;> simp [h] at hv
+  · cases h : prefixSuffix toks <;> simp [h] at hv
+  · cases h : range toks <;> simp [h] at hv
+  · cases h : pad toks <;> simp [h] at hv
+  · cases h : fallback toks <;> simp [h] at hv
+  · cases h : symbols toks <;> simp [h] at hv
+  · cases h : additiveSymbols toks <;> simp [h] at hv
+  · simp at hv
+
+private theorem foldl_range (ds : List Decl) : ∀ (d0 : Desc) (r : RangeDesc),
+    (ds.foldl applyDecl d0).range = some r → d0.range = some r ∨ Decl.range r ∈ ds := by
+  induction ds with
+  | nil => intro d0 r h; exact Or.inl h
+  | cons x xs ih =>
+    intro d0 r h
+    rcases ih (applyDecl d0 x) r h with h1 | h1
+    · cases x <;> simp [applyDecl] at h1 <;> first | exact Or.inl h1 | (subst h1; exact Or.inr (by simp))
+    · exact Or.inr (List.mem_cons_of_mem _ h1)
+
+private theorem foldl_system (ds : List Decl) : ∀ (d0 : Desc) (s : Sys),
+    (ds.foldl applyDecl d0).system = some s → d0.system = some s ∨ Decl.system s ∈ ds := by
+  induction ds with
+  | nil => intro d0 s h; exact Or.inl h
+  | cons x xs ih =>
+    intro d0 s h
+    rcases ih (applyDecl d0 x) s h with h1 | h1
+    · cases x <;> simp [applyDecl] at h1 <;> first | exact Or.inl h1 | (subst h1; exact Or.inr (by simp))
+    · exact Or.inr (List.mem_cons_of_mem _ h1)
+
+/-- **C15.registered_rule_renders** — from the source text to `render_value`: for every `@counter-style` rule,
+whatever its declarations (token soup included), if `preprocess_descriptors` + the rule-level checks register it
+and it does not `extends`, then for every value step 2 (range test) does not raise and step 3 yields an initial
+representation or asks for the fallback style — it never raises and never takes the "wrong number of symbols"
+exit. -/
+theorem registered_rule_renders (decls : List (String × List Tok)) (ds : List Decl) (d : Desc)
+    (hp : preprocessDescriptors decls [] = .ok ds) (hb : buildRule ds = some d) (he : (sysOf d).1 = false)
+    (v : Int) (b : Bool) :
+    (∃ r, inRange d (sysOf d).2.1 v = .ok r) ∧
+    ((∃ t, step3 d (sysOf d).2.1 (sysOf d).2.2 v b = .initial t) ∨
+     (∃ w, step3 d (sysOf d).2.1 (sysOf d).2.2 v b = .fallback w)) := by
+  have hval := preprocess_validated decls [] ds hp (by simp)
+  have hd : d = ds.foldl applyDecl {} ∧ ruleAccepted d = true := by
+    unfold buildRule at hb
+    simp only at hb
+    split at hb
+    · rename_i hacc
+      simp only [Option.some.injEq] at hb
+      subst hb; exact ⟨rfl, hacc⟩
+    · simp at hb
+  obtain ⟨hdef, hacc⟩ := hd
+  constructor
+  · -- step 2
+    cases hr : d.range with
+    | none => exact range_test_total d _ v [] (Or.inl hr)
+    | some r =>
+      rcases foldl_range ds {} r (by rw [← hdef]; exact hr) with h0 | hmem
+      · simp at h0
+      · obtain ⟨toks, ht⟩ := validated_range r (hval _ hmem)
+        exact range_test_total d _ v toks (Or.inr (by rw [hr, ht]))
+  · -- step 3
+    cases hs : d.system with
+    | none =>
+      -- `system` absent: symbolic, at least one symbol
+      have hso : sysOf d = (false, "symbolic", none) := by simp [sysOf, hs]
+      rw [hso]
+      have h1 : 1 ≤ (d.symbols.getD []).length := by
+        simp [ruleAccepted, hs] at hacc
+        exact Nat.pos_of_ne_zero (fun e => hacc (List.eq_nil_of_length_eq_zero e))
+      cases hsym : d.symbols with
+      | none => simp [hsym] at h1
+      | some syms =>
+        have hl : ¬ syms.length < 1 := by simp [hsym] at h1; omega
+        left
+        simp [step3, hsym, hl]
+    | some s =>
+      have hso : sysOf d = (s.ext, s.name, s.fixed) := by simp [sysOf, hs]
+      rw [hso] at he ⊢
+      rcases foldl_system ds {} s (by rw [← hdef]; exact hs) with h0 | hmem
+      · simp at h0
+      · obtain ⟨toks, ht⟩ := validated_system s (hval _ hmem)
+        exact registered_style_step3_ok d s toks hs ht he hacc v b
+
 /-! Non-vacuity -/
 section Examples
 example : additiveSymbols [.int 10, .ident "X", .comma, .int 5, .ident "V", .comma, .ident "I", .int 1]
@@ -258,6 +522,16 @@ example : additiveSymbols [.int 10, .ident "X", .comma, .int 5, .ident "V", .com
 example : additiveSymbols [.int 5, .ident "V", .comma, .int 5, .ident "I"] = none := by decide
 example : rangePart [.ident "infinite", .int 3] = some (.pair .negInf (.fin 3)) := by decide
 example : rangePart [.int 3, .int 1] = none := by decide
+example : range [.int 1, .int 3, .comma, .ident "infinite", .int 0] =
+    some (.entries [.pair (.fin 1) (.fin 3), .pair .negInf (.fin 0)]) := by decide
+example : inRange { range := range [.ident "Auto"] } "alphabetic" 0 = .ok false := by decide
+example : (preprocessDescriptors [("system", [.ident "Numeric"]), ("symbols", [.str "0", .ident "a"]),
+    ("range", [.ident "auto"]), ("pad", [])] []).map buildRule =
+    .ok (some { system := some ⟨false, "numeric", none⟩, symbols := some [.str "0", .str "a"], range := some .auto }) := by
+  rfl
+example : preprocessDescriptors [("system", [.ident "extends", .ident "decimal"]), ("symbols", []),
+    ("speak-as", [.ident "auto"]), ("range", [.ident "auto"])] [] =
+    .ok [.system ⟨true, "decimal", none⟩, .range .auto] := by rfl
 example : system [.ident "FIXED", .int (-2)] = .ok (some ⟨false, "fixed", some (-2)⟩) := by rfl
 example : system [.ident "extends", .ident "Foo"] = .ok (some ⟨true, "foo", none⟩) := by rfl
 example : buildRule [.system ⟨false, "alphabetic", none⟩, .symbols [.str "a"]] = none := by decide
